@@ -396,9 +396,8 @@ func vcL2(out *zzverif.Out, cfg *vcCfg, caseLine string, r *vcResult) {
 			if sz != 0 && (!ok || need > gpus[i].FreeMemory) {
 				fail("alloc-exceeds-free", gi, "gpu=%d size=%d overhead=%d free=%d layers_on_gpu=%d", i, sz, cfg.Overhead, gpus[i].FreeMemory, counts[i])
 			}
-			if counts[i] > 0 && sz == 0 {
-				fail("alloc-exceeds-free", gi, "gpu=%d has %d layers but size 0", i, counts[i])
-			}
+			// (a GPU may hold layers and still have 0 bytes planned: zero-size layers, no graph, no
+			// minimum — the property says nothing about that)
 		}
 		if e.Layers > 0 && sumSizes != e.VRAMSize {
 			fail("vram-sum", gi, "sizes sum to %d, VRAMSize=%d", sumSizes, e.VRAMSize)
